@@ -238,7 +238,7 @@ func (r *dbRunner) runSession(si int, s dbSession) (res sessionResult) {
 			AdvanceWeight: s.Knobs.Advance,
 			Interval:      time.Second,
 			MaxAdvances:   200,
-			MaxSteps:      400000,
+			MaxSteps:      2000000,
 		})
 		db, err := simpledb.NewSimpleDB(r.dir, s.Opts.options()...)
 		if err != nil {
@@ -381,7 +381,7 @@ func runInBubble(t *testing.T, w *simrt.World, knobs schedKnobs, body func()) (r
 			AdvanceWeight: knobs.Advance,
 			Interval:      time.Second,
 			MaxAdvances:   50,
-			MaxSteps:      400000,
+			MaxSteps:      2000000,
 		})
 		w.GoClient("main", body)
 		res, err = w.RunScheduler()
